@@ -168,17 +168,31 @@ def classify(tr, l, clause):
     if clause == "T_C13_NoAdmit":
         # how many items were on the belt (waiting head included) when the reservation was granted
         return "granted_while_head_waits" if e.get("n", 0) <= 1 else "granted_while_head_waits_and_items_travel"
+    slotted = tr["cfg"]["type"] == "slotted"
+    # the slotted conveyor never holds anything back: every item is offered exactly Cap*Slot after it entered.  Its known
+    # findings are exactly that behaviour; anything else on a slotted belt is a different failure.
+    plain_travel = e["t"] == t_of.get(("enter", x), -99) + L
     if clause == "T_C13_Frozen":
-        if e["t"] == t_of.get(("enter", x), -99) + L:
-            return "never_stopped"
-        return "advanced_during_stall"
+        if slotted:
+            return "never_stopped" if plain_travel else "other_travel_time"
+        # continuous belt: did the item enter while the belt was stalled (head offered, nobody holds a reservation)?
+        stalled, entered_in_stall = False, False
+        for y in ev[:l]:
+            if y["k"] == "enter" and y["it"] == x:
+                entered_in_stall = stalled
+            stalled = y.get("rd", 0) > 0 and y.get("gg", 0) == 0
+        return "advanced_during_stall" if entered_in_stall else "advanced_during_stall_though_on_the_belt_before_it"
     if clause == "T_C13_CloseUp":
         order = [y["it"] for y in ev[:l] if y["k"] == "enter"]
         pred = order[order.index(x) - 1] if x in order and order.index(x) > 0 else 0
         if pred and ("take", pred) not in t_of:
-            return "offered_while_predecessor_waits"
+            return "offered_while_predecessor_waits" if (plain_travel or not slotted) else "offered_while_predecessor_waits_other_travel_time"
         exp = max(t_of.get(("enter", x), 0) + L, (t_of.get(("take", pred), -10 ** 6) + slot) if pred else -10 ** 6)
-        return "late" if e["t"] > exp else "early"
+        if e["t"] > exp:
+            return "late" if e["t"] - exp <= 2 * slot else "late_by_more_than_two_item_lengths"
+        if slotted:
+            return "early" if plain_travel else "early_other_travel_time"
+        return "early"
     if clause == "T_C13_AdmitToCap":
         prev = [y for y in ev[:l] if y["k"] in ("take", "cancel", "enter", "offer")]
         return "late_admission" if not prev or prev[-1]["k"] != "cancel" else "not_admitted_after_cancel"
@@ -204,13 +218,18 @@ def run(prop, tier, seed):
         for v in r["violations"]:
             if v["clause"] in WF[0] + WF[1]:
                 mach.append("malformed belt trace %s tid %s step %s (%s)" % (fname, v["tid"], v["l"], v["clause"]))
-            if v["clause"] in mine and (v["clause"], v["tid"]) not in seen:
-                seen.add((v["clause"], v["tid"]))
+            if v["clause"] in mine:
                 if traces is None:
                     traces = common.load_json(os.path.join(d, fname))
                 tr = traces[v["tid"] - 1]
+                # every violated step is classified (not only the first of a run): a new kind of failure later in a run
+                # that starts with a known one is still reported
+                kind = classify(tr, v["l"], v["clause"])
+                if (v["clause"], v["tid"], kind) in seen:
+                    continue
+                seen.add((v["clause"], v["tid"], kind))
                 violations.append({"clause": v["clause"], "engine": "belt", "component": tr["cfg"]["type"], "acc": tr["cfg"]["acc"],
-                                   "kind": classify(tr, v["l"], v["clause"]),
+                                   "kind": kind,
                                    "config": tr["name"], "pattern": tr.get("pattern"), "step": v["l"], "cfg": tr["cfg"],
                                    "orig": tr.get("orig"), "events": tr["ev"][:(v["l"] or 0) + 1][-40:]})
     # crashes of the real conveyor under the scripts are reported under both (the run is cut short)
